@@ -13,6 +13,8 @@ FAMILY_ARGS = {
     'admit': {'quick': [], 'thorough': []},
     'buffer': {'quick': ['-seed', '{seed}', '-n', '3000', '-exhaustive', '5', '-maxlen', '40'],
                'thorough': ['-seed', '{seed}', '-n', '60000', '-exhaustive', '7', '-maxlen', '300']},
+    'buflinked': {'quick': ['-seed', '{seed}', '-n', '2000', '-exhaustive', '6', '-maxlen', '80'],
+                  'thorough': ['-seed', '{seed}', '-n', '40000', '-exhaustive', '8', '-maxlen', '400']},
     'setters': {'quick': [], 'thorough': []},
     'leasemgr': {'quick': [], 'thorough': []},
     'hist': {'quick': ['-seed', '{seed}', '-n', '700'],
@@ -101,13 +103,16 @@ PROPS = {
                         'leftover batches at the end of a cycle come out in Go map order: compared as a set'],
     },
     'C15': {
-        'families': ['buffer', 'hist'],
-        'fields': {'buffer': ['obs', 'panic'], 'hist': None},
+        'families': ['buffer', 'buflinked', 'hist'],
+        'fields': {'buffer': ['obs', 'panic'], 'buflinked': ['obs'], 'hist': None},
         'nontrivial': r'acts=.*E\d+,.*R',
         'rule': 'buffer family (in-package seam, real v2 buffer in a synctest bubble): every sequence of <=5 (quick) / <=7 (thorough) actions over '
                 '{blocking enqueue, error-mode enqueue, top, skip, remove, shutdown} for capacities 1..3, plus seeded random sequences up to 40/300 actions, capacities 1..4; '
-                'after every action the system settles and returned calls, size and returned operation are compared; non-trivial = at least one blocking enqueue followed by a remove',
-        'explanation': 'L1 buffer + condition-variable machine: bound, FIFO, cursor validity, no lost wake-up, waiters released by shutdown; tie = exhaustive short sequences + random',
+                'after every action the system settles and returned calls, size and returned operation are compared; '
+                'buflinked family: every sequence of 6 (quick) / 8 (thorough) sequential actions over {error-mode enqueue, top, skip, remove, shutdown} for capacities 1..3 plus seeded random sequences '
+                'up to 80/400 actions, capacities 1..6, replayed through the L0 model (the linked list as the code has it); after EVERY action the returned value, size() and the linked structure itself '
+                '(forward walk from head, backward walk from tail, len counter, cursor position, shutdown flag; in-package seam Dump) must equal the model\'s; non-trivial = at least one blocking enqueue followed by a remove',
+        'explanation': 'L1 buffer + condition-variable machine: bound, FIFO, cursor validity, no lost wake-up, waiters released by shutdown; L0 (doubly linked list on a heap, transcribed from buffer.go) refines L1 for every operation sequence and never panics (C15b); tie = exhaustive short sequences + random, incl. the linked structure after every action',
         'assumptions': ['sync.Cond.Signal wakes the longest-waiting caller (runtime notifyList is FIFO)',
                         'v1 buffer is a Go channel: its bound and blocking behaviour are the runtime\'s; v1 is observed through the Batcher (hist family) only'],
     },
